@@ -237,6 +237,25 @@ static int mk_poly(Call *c, int fn, int shape, int anchor, int scale, int res, u
             c->poly.holes[1] = c->poly.holes[0];
             c->poly.holes[0].n = 0;
         }
+        // holes that cannot be traced although the outer loop is fine: 106 NaN vertex, 107 infinite vertex, 108 hole 40x larger than the
+        // outer loop, 109 hole far outside the outer loop, 110 two holes of which the second has a NaN vertex
+        if (shape == 106) c->poly.holes[0].v[1].lat = NAN;
+        if (shape == 107) c->poly.holes[0].v[2].lng = INFINITY;
+        if (shape == 108 || shape == 109) {
+            LatLng ctr = c->poly.outer.v[0];
+            for (int i = 0; i < c->poly.holes[0].n; i++) {
+                if (shape == 108) {
+                    c->poly.holes[0].v[i].lat = ctr.lat + (c->poly.holes[0].v[i].lat - ctr.lat) * 40;
+                    c->poly.holes[0].v[i].lng = ctr.lng + (c->poly.holes[0].v[i].lng - ctr.lng) * 40;
+                } else
+                    c->poly.holes[0].v[i].lat = -c->poly.holes[0].v[i].lat, c->poly.holes[0].v[i].lng += 1.0;
+            }
+        }
+        if (shape == 110) {
+            c->poly.nh = 2;
+            c->poly.holes[1] = c->poly.holes[0];
+            c->poly.holes[1].v[0].lng = NAN;
+        }
         for (int k = 0; k < c->poly.nh; k++) c->poly.hl[k].numVerts = c->poly.holes[k].n;
         c->poly.gp.geoloop.numVerts = c->poly.outer.n;
         c->poly.gp.numHoles = c->poly.nh;
@@ -427,7 +446,7 @@ static void ph_poly_capacity(void *u) {
 static void ph_poly_degenerate(void *u) {
     static const uint32_t flagsE[] = {0, 1, 2, 3, 4, 0x10};
     uint64_t idx = 0;
-    for (int shape = 100; shape <= 105; shape++)
+    for (int shape = 100; shape <= 110; shape++)
         for (int ai = 0; ai < g_npa; ai += 4)
             for (int res = 0; res <= 15; res += 3)
                 for (int fn = 0; fn < 3; fn++)
@@ -461,7 +480,7 @@ int main(int argc, char **argv) {
         if (k == 1 || (k == 0 && an % (mc_thorough ? 3 : 6) == 0) || (k == 5 && an % 3 == 0) || (k == 2 && an % (mc_thorough ? 15 : 40) == 0) || ((k == 3 || k == 4 || k == 6) && an % (mc_thorough ? 2 : 5) == 0)) g_polyanchors[g_npa++] = an;
     }
     snprintf(mc_bounds, sizeof mc_bounds, "fault bound: every single index, every persistent-from index, every pair (n<=14); disks: CLOSE(pentagons,2)+hexagons at %s x k 1..%d x distances NULL/non-NULL; "
-             "areNeighborCells: CLOSE(pentagons,1) at %d resolutions x ball 2; compactCells: 7 kinds x depth 1..%d on 36 roots (12 base cells x res 0,5,10) + full/partial descendant sets of N in {1,2,5,6,7,8,12,20,49,121,122} base cells (3 selections) at res 1..2(3); polygons: %d shapes x %d anchors x %d scales x %d resolutions x (legacy, experimental x 6 flag values, size x 6) + 6 degenerate polygons (empty / 1- / 2-vertex outer loop, empty holes) x anchors x 6 resolutions; capacities {count-1, count/2, 1, 0} x 4 modes; "
+             "areNeighborCells: CLOSE(pentagons,1) at %d resolutions x ball 2; compactCells: 7 kinds x depth 1..%d on 36 roots (12 base cells x res 0,5,10) + full/partial descendant sets of N in {1,2,5,6,7,8,12,20,49,121,122} base cells (3 selections) at res 1..2(3); polygons: %d shapes x %d anchors x %d scales x %d resolutions x (legacy, experimental x 6 flag values, size x 6) + 11 degenerate polygons (empty / 1- / 2-vertex outer loop, empty holes, holes with NaN / infinite vertexes, a hole 40x larger than or far outside the outer loop) x anchors x 6 resolutions; capacities {count-1, count/2, 1, 0} x 4 modes; "
              "disks from invalid origins (digit 7 at every position, deleted sub-sequence, base cells 122/127, high bit, wrong mode, reserved bits) x k 0..3",
              mc_thorough ? "all 16 resolutions" : "res {0,1,2,5,9,13,3,7,11,15}", mc_thorough ? 7 : 5, mc_thorough ? 16 : 8, mc_thorough ? 5 : 4, mc_thorough ? 11 : 6, g_npa, mc_thorough ? 3 : 2, mc_thorough ? 13 : 8);
     static const int dres[] = {0, 1, 2, 5, 9, 13, 3, 7, 11, 15, 4, 6, 8, 10, 12, 14};
